@@ -2,7 +2,7 @@
 // Serialized form of InternalKey (src/key.rs): user key ++ le8(sequence) ++ [operation].
 // ---------------------------------------------------------------------------------------------
 //@include specs/common/read_error.vs
-//@enum src/errors.rs :: RainDBError keep: TableRead KeyParsing KeyNotFound Other derive: Debug
+//@enum src/errors.rs :: RainDBError keep: IO TableRead KeyParsing KeyNotFound Other derive: Debug
 //@type src/errors.rs :: RainDBResult
 //@impl src/errors.rs :: impl From<ReadError> for RainDBError
 //@fn from
@@ -12,6 +12,15 @@
 impl FromSpecImpl<ReadError> for RainDBError {
     open spec fn obeys_from_spec() -> bool { true }
     open spec fn from_spec(e: ReadError) -> Self { RainDBError::TableRead(e) }
+}
+//@impl src/errors.rs :: impl From<io::Error> for RainDBError
+//@fn from
+//@sig
+//@endfn
+//@endimpl
+impl FromSpecImpl<std::io::Error> for RainDBError {
+    open spec fn obeys_from_spec() -> bool { true }
+    open spec fn from_spec(e: std::io::Error) -> Self { RainDBError::IO(<DBIOError as FromSpec<std::io::Error>>::from_spec(e)) }
 }
 //@item src/key.rs :: trait RainDbKeyType
 
